@@ -865,3 +865,124 @@ func c16NoEarlyAnswer(p *load.Prog, r *oblig.Run) {
 		}
 	}
 }
+
+// c16OperandInput (R16.p): the two operands of a comparison are evaluated on the current item. In the methods of
+// BinaryExpr (and unexported helpers they hand the work to) every call that evaluates an operand stored in the
+// expression (a field of interface type Expression loaded from the receiver) receives the function's own input
+// parameter, and stands where that input is known not to be a list: behind the false edge of
+// `reflect.ValueOf(input).Kind() == reflect.Slice` (the list branch maps the whole comparison over the elements by
+// recursion). An operand "hoisted" out of the element loop is evaluated on the whole list, and every element is then
+// compared with the text of the mapped list instead of its own value.
+func c16OperandInput(p *load.Prog, r *oblig.Run) {
+	r.Rule("R16.p", "the operands of a comparison are evaluated on the current item: on the method's own input, and only where that input is not a list", 2)
+	var be *types.Named
+	if m := p.Method(load.PkgQ, "BinaryExpr", "Evaluate"); m != nil {
+		be = load.NamedOf(m.Signature.Recv().Type())
+	}
+	if be == nil {
+		r.Add("R16.p", "anchors", "-", "anchor").Unknown("type q.BinaryExpr not found")
+		return
+	}
+	// notListAt: blk of fn is only reached over an edge on which ValueOf(par).Kind() != Slice
+	var notListAt func(fn *ssa.Function, blk *ssa.BasicBlock, par *ssa.Parameter, depth int) bool
+	notListAt = func(fn *ssa.Function, blk *ssa.BasicBlock, par *ssa.Parameter, depth int) bool {
+		for _, b := range fn.Blocks {
+			iff, ok := b.Instrs[len(b.Instrs)-1].(*ssa.If)
+			if !ok {
+				continue
+			}
+			bo, ok := iff.Cond.(*ssa.BinOp)
+			if !ok || (bo.Op != token.EQL && bo.Op != token.NEQ) {
+				continue
+			}
+			kc, ok := bo.X.(*ssa.Call)
+			if !ok || !su.CalleeIs(&kc.Call, "reflect", "Kind") || len(kc.Call.Args) != 1 {
+				continue
+			}
+			vo, ok := kc.Call.Args[0].(*ssa.Call)
+			if !ok || !su.CalleeIs(&vo.Call, "reflect", "ValueOf") || vo.Call.Args[0] != ssa.Value(par) {
+				continue
+			}
+			if kv, ok := su.ConstInt(bo.Y); !ok || kv != int64(reflect.Slice) {
+				continue
+			}
+			sx := b.Succs[1]
+			if bo.Op == token.NEQ {
+				sx = b.Succs[0]
+			}
+			if len(sx.Preds) == 1 && (sx == blk || sx.Dominates(blk)) {
+				return true
+			}
+		}
+		// a helper: every caller hands over its own input parameter from such a place
+		if depth >= 2 || fn.Object() == nil || fn.Object().Exported() {
+			return false
+		}
+		idx := -1
+		for i, q := range fn.Params {
+			if q == par {
+				idx = i
+			}
+		}
+		n := 0
+		for _, f := range p.Repo {
+			for _, b := range f.Blocks {
+				for _, ins := range b.Instrs {
+					var ops []*ssa.Value
+					for _, op := range ins.Operands(ops) {
+						if op != nil && *op == ssa.Value(fn) {
+							ci, ok := ins.(*ssa.Call)
+							if !ok || ci.Call.StaticCallee() != fn || idx < 0 || idx >= len(ci.Call.Args) {
+								return false
+							}
+							cp, ok := ci.Call.Args[idx].(*ssa.Parameter)
+							if !ok || !notListAt(f, b, cp, depth+1) {
+								return false
+							}
+							n++
+						}
+					}
+				}
+			}
+		}
+		return n > 0
+	}
+	n := 0
+	for _, fn := range p.Repo {
+		if pkgPathOf(fn) != load.PkgQ || fn.Synthetic != "" || len(fn.Blocks) == 0 {
+			continue
+		}
+		for _, b := range fn.Blocks {
+			for _, ins := range b.Instrs {
+				ci, ok := ins.(ssa.CallInstruction)
+				if !ok || !ci.Common().IsInvoke() || ci.Common().Method.Name() != "Evaluate" || len(ci.Common().Args) != 3 {
+					continue
+				}
+				ld, ok := ci.Common().Value.(*ssa.UnOp)
+				if !ok || ld.Op != token.MUL {
+					continue
+				}
+				fa, ok := ld.X.(*ssa.FieldAddr)
+				if !ok || load.NamedOf(fa.X.Type()) != be {
+					continue
+				}
+				field := be.Underlying().(*types.Struct).Field(fa.Field).Name()
+				n++
+				o := r.Add("R16.p", "operand "+field+" evaluated in "+load.FuncName(fn), p.Pos(ins.Pos()), "input of the operand's evaluation")
+				par, isPar := ci.Common().Args[1].(*ssa.Parameter)
+				switch {
+				case !isPar:
+					o.Fail("the operand " + field + " is evaluated on " + ci.Common().Args[1].Name() + ", not on the input this function was given: the comparison no longer looks at the current item")
+				case !notListAt(fn, b, par, 0):
+					o.Fail("the operand "+field+" is evaluated on "+par.Name()+" at a place that is also reached when "+par.Name()+" is a list (no `reflect.ValueOf("+par.Name()+").Kind() == reflect.Slice` branch has been left behind): every element is then compared with the value of the whole list instead of its own",
+						"documented: an operator applied to a list maps over its elements (q/doc.go); `.Individuals | .Name | .GivenName = .Surname` must compare each name with its own surname")
+				default:
+					o.OK("evaluated on the function's input " + par.Name() + " behind the not-a-list edge")
+				}
+			}
+		}
+	}
+	if n == 0 {
+		r.Add("R16.p", "anchors", "-", "anchor").Unknown("no evaluation of an operand stored in q.BinaryExpr found")
+	}
+}
